@@ -95,7 +95,7 @@ def run_regexp(case):
 
 def run_cfg(case):
     spec = case["cfg"]
-    Gr = BC.mk_cfg(spec)
+    Gr = BC.mk_cfg(spec, epsilon=case.get("eps"))
     text = lib(cfg_print_simple, Gr)
     back = lib(parse_simple_cfg, text)
     snap = BC.snap_cfg(back)
@@ -127,8 +127,8 @@ def cfg_cases(draw, tier):
     spec = draw(GC.cfg_specs(max_vars=4, terms=("a", "b"), simple=True, allow_norule=False, max_len=3))
     used = sorted({x for _, rhs in spec["R"] for x in rhs if x not in spec["V"]})
     spec["T"] = used
-    # drop duplicate alternatives of one variable?  no: the text format can express them; keep as generated
-    return {"cfg": spec}
+    # the grammar object's own empty-word symbol: the default, or '_', or a letter that is not a terminal
+    return {"cfg": spec, "eps": draw(st.sampled_from([None, None, "_", "e", "z"]))}
 
 
 def ex_regexp(tier):
